@@ -193,9 +193,89 @@ def run(ctx):
         ifs = [n for n in body_walk(f) if isinstance(n, ast.If) and norm(n.test) == "self.run_on_shutdown"]
         ok = len(ifs) == 1 and "'shutdown'" in norm(ifs[0])
         ctx.check(ok, "R06.3", uid, "shutdown run issued from stop()", msg=f"{uid} no longer issues the shutdown run under `if self.run_on_shutdown`", key="shutdown run", node=f, rel=rel)
+    ctx.rule("R06.4", "the DST-adjusted wait target is only subtracted from the `now` it was computed for; early wake-up re-checks compare the wall clock with the wall-clock instant", floor=3)
+    adjusted_target_rule(ctx, program, "R06.4")
     return (
         "Static, source-only: timer_trigger_next is abstractly interpreted on 185 spec lists x 4 (now, start-up) pairs with parse_date_time, parse_time_offset, croniter and "
         "as_local summarised over a grid of abstract instants; the returned (next_time, wait target) is compared with the minimum of the denoted instants.  "
         "Def-use of the dispatched trigger_time in the three consumers; once-only structure of startup/shutdown runs.  NOT decided (numeric, out of reach of this technique): "
         "date/time/offset parsing, period arithmetic across days, DST adjustment, cron field matching."
     )
+
+
+class _AdjPolicy(FlowPolicy):
+    def call(self, interp, node, fname, fval, args, kwargs, cfg, out):
+        if isinstance(fval, App) and fval.op == "getattr" and fval.args[1] == Const("total_seconds"):
+            return [(cfg, App("seconds", (fval.args[0],)))]
+        return super().call(interp, node, fname, fval, args, kwargs, cfg, out)
+
+
+def _terms(v, acc):
+    if isinstance(v, App):
+        acc.append(v)
+        for a in v.args:
+            _terms(a, acc)
+    elif isinstance(v, ListV):
+        for a in v.items:
+            _terms(a, acc)
+    elif isinstance(v, tuple):
+        for a in v:
+            _terms(a, acc)
+
+
+def adjusted_target_rule(ctx, program, rid):
+    """timer_trigger_next(spec, now, ...) returns (instant, target) with `target - now` the real time to wait (differs from
+    `instant - now` across a DST change).  Subtracting a *refreshed* clock reading from the target is off by the DST shift."""
+    # new subsystem: abstract interpretation, terms of every sleep duration and every decided test
+    uid = "decorators/timing.py::TimeTriggerDecorator._cycle"
+
+    def ttn(i, n, a, k, c, o):
+        return [(c, ListV((App("instant", (a[1],)), App("adj", (a[1],))), "tuple"))]
+
+    pol = _AdjPolicy(program, may_raise_all=False, cancel=False, events=["asyncio.sleep"], summaries={"trigger.TrigTime.timer_trigger_next": ttn})
+    pol.loop_unroll = 2
+    heap = {"self.run_on_startup": Const(False), "self.dm": ObjV("dm", "DecoratorManager"), "dm.status": Sym(("clsattr", "DecoratorManagerStatus", "RUNNING")),
+            "dm.startup_time": Sym(("startup",)), "self.timespec": ListV((Const("cron(0 0 * * *)"),), "list"), "dm.name": Const("f")}
+    out = run_flow(program, uid, pol, args={"self": ObjV("self", "TimeTriggerDecorator")}, heap=heap)
+    bad, n_sub = None, 0
+    for kind, c, desc in exits(out):
+        acc = []
+        for e in c.trace:
+            if e[0] == "call":
+                _terms(e[2], acc)
+        for atom, val in c.assume:
+            _terms(atom, acc)
+        for t in acc:
+            if t.op == "sub" and isinstance(t.args[0], App) and t.args[0].op == "adj":
+                n_sub += 1
+                if t.args[0].args[0] != t.args[1]:
+                    bad = f"the wait target computed for now={t.args[0].args[0]!r} is compared with a different clock reading {t.args[1]!r}"
+    ctx.check(n_sub > 0 and bad is None, rid, uid, "new subsystem: target used only with its own `now`",
+              msg=f"TimeTriggerDecorator._cycle: {bad or 'the wait target is never used'}: on the day of a DST change the two differ by the shift, so a cron trigger fires an hour late "
+              f"(fall back) - the legacy loop re-checks against the wall-clock instant", key="new adj/now pairing", node=program.func(uid), rel="decorators/timing.py")
+    # legacy loops: def-use over the statement order (their full flow is large; the uses sit right behind the call)
+    for uid in ("trigger.py::TrigInfo.trigger_watch", "trigger.py::TrigTime.wait_until"):
+        f = program.func(uid)
+        calls = [n for n in body_walk(f) if isinstance(n, ast.Assign) and isinstance(n.value, ast.Await) and isinstance(n.value.value, ast.Call)
+                 and (call_name(n.value.value) or "").endswith("timer_trigger_next") and isinstance(n.targets[0], ast.Tuple) and len(n.targets[0].elts) == 2]
+        if not calls:
+            raise AnalysisError(f"{uid}: call of timer_trigger_next not found")
+        bad = None
+        uses = 0
+        for call in calls:
+            adj = call.targets[0].elts[1].id
+            nowname = norm(call.value.value.args[1])
+            for n in body_walk(f):
+                if isinstance(n, ast.Name) and n.id == adj and isinstance(n.ctx, ast.Load):
+                    uses += 1
+                    par = getattr(n, "_parent", None)
+                    if not (isinstance(par, ast.BinOp) and isinstance(par.op, ast.Sub) and par.left is n and norm(par.right) == nowname):
+                        bad = f"line {n.lineno}: `{short(par)}` uses the wait target other than as `{adj} - {nowname}`"
+                        continue
+                    # no re-assignment of `now` between the call and the use (same statement list, textual order)
+                    redefs = [m for m in body_walk(f) if isinstance(m, (ast.Assign, ast.AugAssign)) and any(norm(t) == nowname for t in (m.targets if isinstance(m, ast.Assign) else [m.target]))
+                              and call.lineno < m.lineno < n.lineno]
+                    if redefs:
+                        bad = f"line {n.lineno}: `{nowname}` is re-assigned at line {redefs[0].lineno} between timer_trigger_next and `{short(par)}`"
+        ctx.check(uses > 0 and bad is None, rid, uid, "legacy: target used only as `target - now` right behind the call",
+                  msg=f"{uid}: {bad or 'wait target unused'}", key="legacy adj/now pairing", node=f, rel="trigger.py")
